@@ -21,10 +21,28 @@ RULE = ("random histories over 12 cache configurations (default, minute precisio
         "and full teardown; non-trivial = distinct history that reached the property's interesting state (envcheck.nontrivial)")
 
 
+def kms_section(ck, tier, seed, replay):
+    """The AWS KMS plugins with debug logging on: no plaintext key (system key, KMS data key) in any log line, in any rendering."""
+    kruns = [["-replay", replay]] if replay else [["-seed", str(seed + 3), "-n", "400" if tier == "quick" else "4000", "-x", "leak"]]
+    kcases = envcheck.run_harness(ck, "kms", kruns)
+    if kcases is None:
+        return False
+    ck.cov["kms_plugin_cells_with_debug_log_scan"] = len(kcases)
+    ck.cov["kms_plugin_cells_with_region_failover"] = sum(1 for c in kcases if c.get("wrapok") and c.get("genregion", 0) != c.get("pref", 0))
+    kbad = [c for c in kcases if any("debug log line" in v for v in c.get("viol") or [])]
+    if kbad:
+        ck.violation(ck.replay_file("kms", {"what": [v for v in kbad[0]["viol"] if "debug log line" in v], "Case": kbad[0]}))
+    return True
+
+
 def main(tier, seed, replay):
     prop = "C03"
     ck = Check(prop, tier, seed)
     ck.coq_theorems()
+    if replay and '"wrapv"' in open(replay).read():
+        kms_section(ck, tier, seed, replay)
+        ck.cov.update({"evaluations": 1, "distinct_nontrivial": 1, "rule": "replay"})
+        return ck.finish()
     n = 240 if tier == "quick" else 2400
     runs = [["-replay", replay]] if replay else RUNS[prop](seed, n)
     if replay and "sched-" in replay:
@@ -61,6 +79,9 @@ def main(tier, seed, replay):
                 ck.violation(ck.replay_file("randfault", {"what": what, "Case": rc_}))
                 break
         if replay:
+            return ck.finish()
+    if not replay:
+        if not kms_section(ck, tier, seed, None):
             return ck.finish()
     # the key hierarchy under concurrency: goroutines of several partitions sharing the factory's caches (controlled schedules)
     if not replay:
